@@ -161,7 +161,7 @@ pub mod gen {
     }
 
     /// Unit quaternions: uniform on S³ (Shoemake's rejection-free construction), axis-angle with the angle
-    /// within 1e-3..1e-7 of 0 or π, w within 1e-3..1e-10 of 0 (or exactly 0), single-axis rotations.
+    /// within 1e-3..1e-16 of 0 or π (so that w rounds to exactly ±1 or the half-turn's w to ~0 while the vector part is still non-zero), w within 1e-3..1e-10 of 0 (or exactly 0), single-axis rotations.
     pub fn unit_quat() -> BoxedStrategy<[f64; 4]> {
         let uni = (0.0f64..1.0, 0.0f64..1.0, 0.0f64..1.0)
             .prop_map(|(u1, u2, u3)| {
@@ -169,7 +169,7 @@ pub mod gen {
                 normalize4([a * (2.0 * PI * u2).sin(), a * (2.0 * PI * u2).cos(), b * (2.0 * PI * u3).sin(), b * (2.0 * PI * u3).cos()])
             })
             .boxed();
-        let near = (0.0f64..1.0, 0.0f64..1.0, 3.0f64..7.0, any::<bool>(), any::<bool>())
+        let near = (0.0f64..1.0, 0.0f64..1.0, prop_oneof![2 => 3.0f64..7.0, 1 => 7.0f64..16.0], any::<bool>(), any::<bool>())
             .prop_map(|(z, phi, k, at_pi, neg)| {
                 let ax = axis(z, phi);
                 let d = 10f64.powf(-k);
